@@ -387,9 +387,7 @@ Section ListLoop.
     rewrite Len.
     destruct (negb (Nat.eqb (List.length (t0 :: tr)) (List.length (a0 :: ar)))); [onomatch H|].
     rewrite Eal.
-    destruct (negb (py_truthy la)).
-    - eapply list_loop_dev; eauto.
-    - destruct la; try onomatch H; eapply list_loop_dev; eauto.
+    destruct la; eapply list_loop_dev; eauto.
   Qed.
 End ListLoop.
 
@@ -1013,9 +1011,7 @@ Proof.
       * cbn in H. onomatch H.
       * cbn in H. onomatch H.
       * destruct (negb (Nat.eqb (List.length (t0 :: tr)) (List.length (a0 :: ar)))); [onomatch H|].
-        cbn [py_truthy negb].
-        destruct (negb (py_truthy la)); [eapply list_loop_drop; eauto|].
-        destruct la; try onomatch H; eapply list_loop_drop; eauto.
+        destruct la; eapply list_loop_drop; eauto.
     + (* maps *)
       rewrite vmatch_map_unfold in *. unfold dict_match in *.
       destruct (key_set (lookup K_SET tk)); try onomatch H.
@@ -1145,12 +1141,10 @@ Proof.
     destruct al' as [|a1 ar']; [cbn in Len; discriminate Len|].
     rewrite Len.
     destruct (negb (Nat.eqb (List.length (t0 :: tr)) (List.length (a0 :: ar)))); [onomatch H|].
-    cbn [py_truthy negb]. rewrite Eal.
+    rewrite Eal.
     assert (Dv : forall lav, vmatch_f n' t a lav false = O_match -> vmatch_f n' t a' JNull false = O_false).
     { intros lav M. eapply IH; eauto. eapply wf_list_inv; eauto. eapply nth_error_In; eauto. }
-    destruct (negb (py_truthy la)).
-    + eapply list_loop_dev_drop; eauto. intros; eapply vmatch_drop_la; eauto.
-    + destruct la; try onomatch H; eapply list_loop_dev_drop; eauto; intros; eapply vmatch_drop_la; eauto.
+    destruct la; eapply list_loop_dev_drop; eauto; intros; eapply vmatch_drop_la; eauto.
 Qed.
 
 (* for [vmatch] as called *)
